@@ -112,7 +112,13 @@ func c11Check(c *caseCtx, g *genReq, d decision, tag string) {
 		return
 	}
 	ev := d.Trace.Eval
-	if ev == nil || !ev.Before.Params.OK {
+	if ev == nil {
+		// the request was accepted and answered, but the registered method never evaluated anything: whatever the answer
+		// is, it is not the outcome of the procedure the property describes
+		c.violate("method-not-evaluated", "the request is answered although the method's Evaluate never ran", M{"request": g.M, "response": d.View})
+		return
+	}
+	if !ev.Before.Params.OK {
 		c.inconclusive("no readable evaluate event")
 		return
 	}
@@ -238,6 +244,7 @@ func c11Shapes(c *caseCtx) {
 
 func c11Sampled(c *caseCtx) {
 	o := genOpts{method: "majorityHeuristic", minAlt: 1, maxAlt: 6, minCrit: 1, maxCrit: 4, nBiases: c.idx % 3, negValues: c.rng.Intn(3) == 0, caseCrit: true, zeroW: true, dupChosen: true}
+	onlyCurrent := c.rng.Intn(30) == 0
 	if c.rng.Intn(2) == 0 {
 		o.profile = profTies
 	}
@@ -253,6 +260,14 @@ func c11Sampled(c *caseCtx) {
 		o.decimalW, o.minCrit, o.maxCrit, o.profile = true, 3, 5, profTies
 	}
 	g := genRequest(c.rng, o)
+	if onlyCurrent {
+		// nothing is chosen, but there is a current choice: it is the whole (undefeated) ranking
+		g.M["choseToMake"] = []interface{}{}
+		g.M["methodParameters"].(M)["currentChoice"] = g.altIds[c.rng.Intn(len(g.altIds))]
+		g.chose = nil
+		delete(g.M, "biases")
+		c.count("current_choice_only", 1)
+	}
 	c11Check(c, g, decide(g.body(), true), "")
 }
 
@@ -285,7 +300,13 @@ func c12Check(c *caseCtx, g *genReq, d decision) {
 		return
 	}
 	ev := d.Trace.Eval
-	if ev == nil || !ev.Before.Params.OK {
+	if ev == nil {
+		// the request was accepted and answered, but the registered method never evaluated anything: whatever the answer
+		// is, it is not the outcome of the procedure the property describes
+		c.violate("method-not-evaluated", "the request is answered although the method's Evaluate never ran", M{"request": g.M, "response": d.View})
+		return
+	}
+	if !ev.Before.Params.OK {
 		c.inconclusive("no readable evaluate event")
 		return
 	}
@@ -461,7 +482,13 @@ func c13Check(c *caseCtx, g *genReq, d decision) {
 		return
 	}
 	ev := d.Trace.Eval
-	if ev == nil || !ev.Before.Params.OK {
+	if ev == nil {
+		// the request was accepted and answered, but the registered method never evaluated anything: whatever the answer
+		// is, it is not the outcome of the procedure the property describes
+		c.violate("method-not-evaluated", "the request is answered although the method's Evaluate never ran", M{"request": g.M, "response": d.View})
+		return
+	}
+	if !ev.Before.Params.OK {
 		c.inconclusive("no readable evaluate event")
 		return
 	}
